@@ -324,19 +324,27 @@ def minOf : Rat → List Rat → Rat
   | m, [] => m
   | m, x :: xs => minOf (if x < m then x else m) xs
 
-/-- the bisection of the repaired `_log_barrier_omd`, over exact arithmetic, with fuel.
-Returns the multiplier and `update(multiplier)`.  `cur = update(l)` throughout. -/
-def omdSearch (ps etas losses : List Rat) : Nat → Rat → Rat → List Rat → Rat × List Rat
-  | 0, l, _, cur => (l, cur)
+/-- the loop of the repaired `_log_barrier_omd` over ANY carrier `F` of multipliers (rationals in
+the exact model, doubles in the implementation): `mid` is `(l+r)/2` as computed, `done` the
+`round(sum,4)==1` test, `probe = update`, `tooBig` the `sum > 1` test.  `cur = probe l` throughout.
+Returns the multiplier with `update(multiplier)` and whether the loop left by one of its own exits
+(`false`: the fuel ran out). -/
+def bisect {F α} [DecidableEq F] (mid : F → F → F) (done : α → Bool) (probe : F → Option α) (tooBig : α → Bool) :
+    Nat → F → F → α → (F × α) × Bool
+  | 0, l, _, cur => ((l, cur), false)
   | fuel + 1, l, r, cur =>
-    if rounds1 cur.sum then (l, cur)
+    if done cur then ((l, cur), true)
     else
-      let x := (l + r) / 2
-      if x = l ∨ x = r then (l, cur)
+      let x := mid l r
+      if x = l ∨ x = r then ((l, cur), true)      -- [l,r] can't be split any further
       else
-        match omdRaw ps etas losses x with
-        | none => omdSearch ps etas losses fuel l x cur
-        | some xs => if 1 < xs.sum then omdSearch ps etas losses fuel l x cur else omdSearch ps etas losses fuel x r xs
+        match probe x with
+        | none => bisect mid done probe tooBig fuel l x cur
+        | some xs => if tooBig xs then bisect mid done probe tooBig fuel l x cur else bisect mid done probe tooBig fuel x r xs
+
+/-- the bisection over exact arithmetic, with fuel.  Returns the multiplier and `update(multiplier)`. -/
+def omdSearch (ps etas losses : List Rat) (fuel : Nat) (l r : Rat) (cur : List Rat) : Rat × List Rat :=
+  (bisect (fun l r => (l + r) / 2) (fun cur => rounds1 cur.sum) (omdRaw ps etas losses) (fun xs => decide (1 < xs.sum)) fuel l r cur).1
 
 def searchFuel : Nat := 400
 
@@ -413,5 +421,157 @@ def runC : Corral → List COp → List (Corral × Out)
   | c, op :: ops =>
     let (c', o) := stepC c op
     (c', o) :: runC c' ops
+
+/-- did the exact search leave by one of its own exits (and not because the fuel ran out)? -/
+def omdHalted (ps etas losses : List Rat) : Bool :=
+  match losses with
+  | [] => true
+  | l0 :: ls =>
+    match omdRaw ps etas losses (minOf l0 ls) with
+    | none => true
+    | some cur => (bisect (fun l r => (l + r) / 2) (fun cur => rounds1 cur.sum) (omdRaw ps etas losses)
+        (fun xs => decide (1 < xs.sum)) searchFuel (minOf l0 ls) (maxOf l0 ls) cur).2
+
+/-! ### the repaired `_log_barrier_omd` as the implementation computes it: every float operation
+through `fl` (the driver uses `flDouble`, the result is compared with the real function's output
+for equality), the same `bisect` loop on the float carrier -/
+
+def ratAbs (x : Rat) : Rat := if x < 0 then -x else x
+
+/-- CPython 3.12 `sum()` of floats (Neumaier compensated summation, Python/bltinmodule.c) -/
+def pySumAux (fl : Rat → Rat) : Rat → Rat → List Rat → Rat
+  | s, c, [] => if c = 0 then s else fl (s + c)
+  | s, c, x :: xs =>
+    let t := fl (s + x)
+    let c' := if ratAbs x ≤ ratAbs s then fl (c + fl (fl (s - t) + x)) else fl (c + fl (fl (x - t) + s))
+    pySumAux fl t c' xs
+
+def pySum (fl : Rat → Rat) (xs : List Rat) : Rat := pySumAux fl 0 0 xs
+
+/-- `(1/p) + eta*(loss-l)` -/
+def omdDenomsF (fl : Rat → Rat) : List Rat → List Rat → List Rat → Rat → List Rat
+  | p :: ps, e :: es, l :: ls, lam => fl (fl (1 / p) + fl (e * fl (l - lam))) :: omdDenomsF fl ps es ls lam
+  | _, _, _, _ => []
+
+def omdRawF (fl : Rat → Rat) (ps etas losses : List Rat) (lam : Rat) : Option (List Rat) :=
+  let ds := omdDenomsF fl ps etas losses lam
+  if ds.all (fun d => decide (0 < d)) then some (ds.map (fun d => fl (1 / d))) else none
+
+/-- the whole function: `none` where Python would fail on `sum(None)` (a non-positive weight came in) -/
+def omdF (fl : Rat → Rat) (fuel : Nat) (ps etas losses : List Rat) : Option (List Rat × Bool) :=
+  match losses with
+  | [] => some ([], true)
+  | l0 :: ls =>
+    match omdRawF fl ps etas losses (minOf l0 ls) with
+    | none => none
+    | some cur =>
+      let res := bisect (fun l r => fl (fl (l + r) / 2)) (fun cur => rounds1 (pySum fl cur)) (omdRawF fl ps etas losses)
+        (fun xs => decide (1 < pySum fl xs)) fuel (minOf l0 ls) (maxOf l0 ls) cur
+      let total := pySum fl res.1.2
+      some (res.1.2.map (fun p => fl (p / total)), res.2)
+
+/-! ### nested compositions: Corral over base learners that may themselves be Corrals
+
+`Base` is what Corral uses of a base learner.  A base learner that needs the kwargs of its own
+prediction back (`info` of a nested Corral) keeps them in its state: the enclosing Corral hands
+every base learner exactly the kwargs its predict returned (checked on the real code). -/
+
+structure Base where
+  σ : Type
+  /-- (new state, chosen action, reported probability) -/
+  predict : σ → List Act → Except PErr (σ × Act × Rat)
+  /-- `learn(context, action, reward, probability, **kwargs)` -/
+  learn : σ → Act → Rat → Rat → Except PErr σ
+
+/-- a plain learner with the UCB indexes it will see (arbitrary, per call) -/
+structure Leaf where
+  L : Learner
+  val : Nat → Act → Rat
+  k : Nat := 0
+
+def leafBase (fl : Rat → Rat) : Base where
+  σ := Leaf
+  predict := fun s actions =>
+    match s.L.predict (s.val s.k) actions with
+    | .error e => .error e
+    | .ok (L', i, p, _) =>
+      match actions[i]? with
+      | some a => .ok ({ s with L := L', k := s.k + 1 }, a, p)
+      | none => .error .indexError
+  learn := fun s a r _ =>
+    match s.L.learn fl a r with
+    | .ok L' => .ok { s with L := L' }
+    | .error e => .error e
+
+/-- a (possibly Misguided) Corral with the states of its base learners and the `info` of its last predict -/
+structure CNode (τ : Type) where
+  mis : List (Rat × Rat) := []
+  c : Corral
+  lastActs : List Act := []
+  lastProbs : List Rat := []
+  bases : List τ
+
+def predictAll (B : Base) : List B.σ → List Act → Except PErr (List B.σ × List Act × List Rat)
+  | [], _ => .ok ([], [], [])
+  | s :: ss, actions =>
+    match B.predict s actions with
+    | .error e => .error e
+    | .ok (s', a, p) =>
+      match predictAll B ss actions with
+      | .error e => .error e
+      | .ok (ss', as, ps) => .ok (s' :: ss', a :: as, p :: ps)
+
+/-- `for learner, … in zip(self._base_lrns, …): learner.learn(…)` -/
+def learnAll (B : Base) : List B.σ → List (Act × Rat × Rat) → Except PErr (List B.σ)
+  | s :: ss, (a, r, p) :: fs =>
+    match B.learn s a r p with
+    | .error e => .error e
+    | .ok s' =>
+      match learnAll B ss fs with
+      | .error e => .error e
+      | .ok ss' => .ok (s' :: ss')
+  | ss, _ => .ok ss
+
+def corralOver (fl : Rat → Rat) (B : Base) : Base where
+  σ := CNode B.σ
+  predict := fun s actions =>
+    match predictAll B s.bases actions with
+    | .error e => .error e
+    | .ok (bs', as, ps) =>
+      match s.c.predict actions as with
+      | .error e => .error e
+      | .ok (c', i, p, _) =>
+        match actions[i]? with
+        | some a => .ok ({ s with c := c', lastActs := as, lastProbs := ps, bases := bs' }, a, p)
+        | none => .error .indexError
+  learn := fun s a r p =>
+    let r' := misguide fl s.mis r
+    if !(decide (0 ≤ r') && decide (r' ≤ 1)) then .error .assertion
+    else if p = 0 then .error .zeroDivision
+    else
+      match learnAll B s.bases (corralFeedback s.c.importance s.lastActs s.lastProbs a r' p) with
+      | .error e => .error e
+      | .ok bs' =>
+        match s.c.learn s.lastActs a r' p with
+        | .error e => .error e
+        | .ok c' => .ok { s with c := c', bases := bs' }
+
+/-- either kind of base learner in one list -/
+def sumBase (B1 B2 : Base) : Base where
+  σ := B1.σ ⊕ B2.σ
+  predict := fun s actions =>
+    match s with
+    | .inl s1 => (match B1.predict s1 actions with | .ok (s', a, p) => .ok (.inl s', a, p) | .error e => .error e)
+    | .inr s2 => (match B2.predict s2 actions with | .ok (s', a, p) => .ok (.inr s', a, p) | .error e => .error e)
+  learn := fun s a r p =>
+    match s with
+    | .inl s1 => (match B1.learn s1 a r p with | .ok s' => .ok (.inl s') | .error e => .error e)
+    | .inr s2 => (match B2.learn s2 a r p with | .ok s' => .ok (.inr s') | .error e => .error e)
+
+/-- learners nested to depth `n`: level 0 the plain learners, level n+1 plain learners or
+(Misguided) Corrals over level-n learners -/
+def tower (fl : Rat → Rat) : Nat → Base
+  | 0 => leafBase fl
+  | n + 1 => sumBase (leafBase fl) (corralOver fl (tower fl n))
 
 end Coba.C16
